@@ -16,6 +16,7 @@ extern int mc_tail_poison;
 #define OUT_MAX 8192
 #define TR_MAX 16384
 static char OUT[OUT_MAX]; static size_t OUTN;
+static unsigned long long OUT_TOTAL; static uint64_t OUT_HASH;     /* all bytes written, also beyond OUT_MAX */
 static char TR[TR_MAX]; static size_t TRN;
 static int tc_flushes, tc_nerr, tc_errs[64];
 static int tc_log_flush = 1;
@@ -29,9 +30,9 @@ static void tr_printf(const char * fmt, ...) {
     if (n > (int) sizeof b - 1) n = (int) sizeof b - 1;
     if (n > 0) tr_add(b, (size_t) n);
 }
-static void tr_reset(void) { OUTN = 0; TRN = 0; OUT[0] = 0; TR[0] = 0; tc_flushes = 0; tc_nerr = 0; }
+static void tr_reset(void) { OUT_TOTAL = 0; OUT_HASH = 0xcbf29ce484222325ULL; OUTN = 0; TRN = 0; OUT[0] = 0; TR[0] = 0; tc_flushes = 0; tc_nerr = 0; }
 
-static size_t tc_write(scpi_t * c, const char * d, size_t n) { (void) c; if (OUTN + n < OUT_MAX) { memcpy(OUT + OUTN, d, n); OUTN += n; OUT[OUTN] = 0; } return n; }
+static size_t tc_write(scpi_t * c, const char * d, size_t n) { size_t i; (void) c; OUT_TOTAL += n; for (i = 0; i < n; i++) { OUT_HASH ^= (unsigned char) d[i]; OUT_HASH *= 0x100000001b3ULL; } if (OUTN + n < OUT_MAX) { memcpy(OUT + OUTN, d, n); OUTN += n; OUT[OUTN] = 0; } return n; }
 static int tc_error(scpi_t * c, int_fast16_t e) { (void) c; if (tc_nerr < 64) tc_errs[tc_nerr++] = (int) e; tr_printf("E%d;", (int) e); return 0; }
 static scpi_result_t tc_control(scpi_t * c, scpi_ctrl_name_t ctrl, scpi_reg_val_t val) { if (ctrl == SCPI_CTRL_SRQ) tr_printf("S%u/%u;", (unsigned) val, (unsigned) SCPI_RegGet(c, SCPI_REG_STB)); return SCPI_RES_OK; }
 static scpi_result_t tc_flush(scpi_t * c) { (void) c; tc_flushes++; if (tc_log_flush) tr_printf("F@%u;", (unsigned) OUTN); return SCPI_RES_OK; }
